@@ -301,6 +301,14 @@ func Open(path string, mode os.FileMode, options *Options) (db *DB, err error) {
 		return nil, err
 	}
 
+	// A file shorter than its own high water mark is not a usable database:
+	// walking it would touch mapped memory beyond the end of the file.
+	if fileSize, szErr := db.fileSize(); szErr == nil && int(db.meta().Pgid())*db.pageSize > fileSize {
+		lg.Errorf("db file (%s) is too small: %d bytes, high water mark %d", path, fileSize, db.meta().Pgid())
+		_ = db.close()
+		return nil, berrors.ErrInvalid
+	}
+
 	if db.PreLoadFreelist {
 		db.loadFreelist()
 	}
